@@ -49,7 +49,8 @@ _m("C08",
    "integrity returned by the publication call; WriteOpts.size vs the writer's own usize counter; MIR Eq/Ne only); each "
    "mismatch arm constructs the documented error (ssri::Error::IntegrityCheckError / Error::SizeMismatch(declared, counted)) "
    "and reaches neither the insertion, nor a success return, nor any mutating filesystem effect (a rejected commit leaves every "
-   "existing mapping and its content untouched).",
+   "existing mapping and its content untouched). The byte counter the size guard uses is the true count (C02 c re-checked: every "
+   "data-accepting method of the keyed writers adds the amount the inner writer reported).",
    "ssri's `matches` semantics for multi-hash values; that the counter is the true byte count (C02 c); behaviour for particular "
    "data/chunkings; the prior state of the key at run time.",
    "MIR gate-cut reachability (must-pass-through) + operand provenance + failure-arm dominance",
@@ -89,7 +90,9 @@ _m("C18",
    "(a) In every checked verify-and-materialise function (calls a streaming reader's check() and reaches a Copy/Reflink/HardLink "
    "effect or any other mutation of its destination parameter: create/open-for-write, data writes) every step that creates or "
    "changes the destination is reachable only through the verification gate — or, alternatively, every failing edge of the "
-   "verification passes an unconditional RemoveFile of the destination before returning. (b) Counts: a checked copy returns 0 + the sum of "
+   "verification passes an unconditional RemoveFile of the destination before returning. (d) A destination that is written by hand is opened with truncate or "
+   "create_new (a longer pre-existing file must not keep its tail), and a clean-up that is only a dropped, un-awaited future does "
+   "not count. (b) Counts: a checked copy returns 0 + the sum of "
    "the amounts returned by its verification reads (identity flow from the reads' Ok payload through the AddWithOverflow "
    "accumulator; no constant, no buffer length); unchecked copies return the copy primitive's count. (c) Keyed extractors: the "
    "miss arm of the lookup reaches no filesystem effect and returns Error::EntryNotFound built from the same (cache, key) "
@@ -126,7 +129,8 @@ _m("C03",
    "(c) Every data write (write/write_all/flush, mapped copy_from_slice, fallocate) targets the private temp handle, a mapping of "
    "it, or an append-only bucket. (f) A staging file that is pre-allocated to the declared size is either mapped — and then trimmed to the bytes "
    "actually written before publication — or given back (set_len(0)) when the mapping fails: plain writes never go into a "
-   "pre-sized file, so no data+padding file can be published. (g) What is published matches its address: the digest/sink agreement and the address clause of C02 (a, d) are "
+   "pre-sized file, so no data+padding file can be published. (f3) The staged file is the sequence of accepted writes: no Seek on the staging "
+   "file, no function receives `&mut Option<MmapMut>`, nothing take()s or replaces the mapping in place. (g) What is published matches its address: the digest/sink agreement and the address clause of C02 (a, d) are "
    "re-checked here — the digest is fed exactly the bytes the staging file accepted, and the rename target is content_path(cache, "
    "that digest). (e) close() reports success only if persist returned Ok or an existence probe of the same "
    "destination succeeded (sync: gate-cut reachability; async: every value sent on the result channel is status-tied to persist, "
@@ -143,7 +147,9 @@ _m("C09",
    "Bucket(cache, key) (+ creating its parent directories), nothing else; content removal = RemoveFile(Content(cache, sri)), "
    "nothing else; RemoveOpts = the tombstone set under remove_fully==false and exactly RemoveFile(Content(cache, "
    "lookup(cache,key).integrity)) + RemoveFile(Bucket(cache,key)) under remove_fully==true (arms separated by the flag's "
-   "switch); clear = RemoveDirAll(Child(read_dir(cache))) inside a loop whose only non-error exit is the iterator's end. "
+   "switch) and, on the remove_fully==true edge, no success return is reachable without passing the bucket removal (nor, except on the "
+   "lookup's None arm, the content removal); clear = RemoveDirAll(Child(read_dir(cache))) inside a loop whose only non-error exit is "
+   "the iterator's end and in which no iteration goes round without removing its child. "
    "The key / integrity selecting the bucket / content address is the entry point's own parameter travelling by identity. "
    "(e) The appended tombstone makes the key not found for reads, metadata and listing: the lookup clauses of C05 b (last record "
    "of the key wins, a None-integrity record clears) and the listing clauses of C10 b–d (last-wins de-duplication by key in file "
@@ -178,7 +184,9 @@ _m("C20",
    "clock-after-epoch and counter-overflow. A site with no applicable rule is reported. Hangs: the one class visible in the "
    "shape of the code is decided — a loop that goes round again only through the error arm of a fallible call inside it "
    "(retry-until-success) must be bounded by a counter; loops that also go round on success (read, line and poll loops) are "
-   "data-driven and not decided.",
+   "data-driven and not decided. Two contract clauses whose violation panics inside callers / the allocator: a write / poll_write "
+   "returns a count that is the Ok payload of an inner write of the caller's own buffer or has been compared with buf.len(); no "
+   "allocation is sized with a number taken from an index record.",
    "Termination of the data-driven loops (poll state machines, verify/consume/read loops); panics raised inside dependencies for inputs the model does not "
    "cover (e.g. ssri on malformed integrity values found on disk); stack or heap exhaustion; allocation failure.",
    "MIR panic-site enumeration + per-site discharge rules (dominance, symbolic terms, dependency closure)",
@@ -209,7 +217,8 @@ _m("C05",
    "early-terminating adaptor), returns the fold's result, and the fold closure's extracted decision table (all entry→return "
    "paths, labelled by the switches on `entry.key == key`, on the record's integrity and on its parse) equals the oracle: key "
    "differs → keep; key equal ∧ tombstone → clear; key equal ∧ parses → replace by *this* record (every Metadata field from the "
-   "same-named record field); key equal ∧ unparsable → keep. Hence the last matching valid record wins and a tombstone hides "
+   "same-named record field); key equal ∧ unparsable → keep. (c) 'Absent after removal': the removal clauses of C09 are re-checked — key removals "
+   "append the tombstone, a full removal removes the bucket on every success path, clear removes every child. Hence the last matching valid record wins and a tombstone hides "
    "earlier ones. A structurally different algorithm is reported as UNRECOGNISED-IDIOM (stated residual risk).",
    "The history → result mapping itself for concrete histories; foreign records placed in a bucket; interleaving of sync and async "
    "callers at run time; SHA-1 collisions.",
@@ -230,7 +239,8 @@ _m("C06",
    "exhaustive static analysis of the readers' validation structure in every configuration (necessary conditions)")
 
 _m("C10",
-   "(a) The listing walks {cache}/index-v<N> — the same versioned directory BUCKET_PATH writes into — and reads every bucket "
+   "(a') Every public listing entry point returns the index listing of its cache parameter unadapted (no filter / map / take "
+   "between the index and the caller). (a) The listing walks {cache}/index-v<N> — the same versioned directory BUCKET_PATH writes into — and reads every bucket "
    "through the same validated BUCKET_READER role that lookups use (its validation is decided under C06). (b) The per-bucket "
    "pipeline, recovered as a symbolic term, is reader → [pre-filter] → reverse → collect into a HashSet of records (first seen = "
    "newest wins) → filter_map(emit) → collect: the recognised last-wins idiom; dropping the reversal is reported as oldest-wins. "
@@ -252,7 +262,9 @@ _m("C11",
    "definitely Some — declared, or assigned from the writer's own byte counter (gate-cut reachability). Read side: every "
    "index::Metadata aggregate in the crate takes each field from the same-named field of the validated record and its integrity "
    "from the parse of the record's string. Builder side: each WriteOpts setter stores Some(argument) in its own field and "
-   "returns self. Schema side: the derived Serialize emits and the derived Deserialize accepts exactly the JSON names key, "
+   "returns self, and nothing else writes time / metadata / raw_metadata (every program-wide source of those fields is the setter, "
+   "a constant None or a copy of the same field): the default time is therefore taken at the insert, i.e. at commit time; a commit "
+   "assigns or mutably borrows sri / size only on the declared-None edge. Schema side: the derived Serialize emits and the derived Deserialize accepts exactly the JSON names key, "
    "integrity, time, size, metadata, raw_metadata in that order, each from its own struct field, and serde_json is instantiated "
    "with the record type on both sides. NOW = SystemTime::now().duration_since(UNIX_EPOCH).as_millis().",
    "That serde_json round-trips a particular value (128-bit integers, decimals, escapes) — a runtime property of the parser; "
@@ -267,7 +279,9 @@ _m("C17",
    "(algorithm, x) = sri.to_hex(); record = \"\\n\" ++ hex(SHA-256(json)) ++ \"\\t\" ++ json in every insert (sync and async "
    "agree); JSON fields key, integrity, time, size, metadata, raw_metadata in that order with integrity: Option<String> (null = "
    "removal); every reader splits fields on TAB and validates SHA-256-hex(fields[1]) == fields[0], and (the reader clauses of C06, re-checked here) takes "
-   "every line of the bucket file, skipping exactly the records the format declares invalid. Path construction is "
+   "every line of the bucket file, skipping exactly the records the format declares invalid; lookups and the "
+   "listing interpret the log as the format says (last valid record per key in file order wins, null integrity removes: C05 b and "
+   "C10 b-d re-checked). Path construction is "
    "normalised to segments (join, push and '/' inside format literals all yield segments; constants are evaluated), so the "
    "comparison is semantic: building the same path another way yields the same descriptor, while a changed version string, "
    "digest, split point, separator or field name changes it. This is not a proxy: the property is that these values are fixed.",
@@ -283,10 +297,15 @@ _m("C02",
    "return Ok(buf.len()) only after copying the whole buf) the whole X and only on the sink's Ok edge — and no sink write goes "
    "undigested. (b) The async staging buffer equals the caller's chunk when the blocking closure is created (set_len(buf.len()) "
    "then a full copy_from_slice(buf), both dominating the spawn, no other mutation). (c) The keyed writers' byte counters do "
-   "`counter += amount reported by the inner writer` and return that amount, passing the caller's buffer unchanged. (d) The temp "
-   "file is persisted to content_path(cache, builder.result()), close returns that digest, and the only non-declared integrity "
+   "`counter += amount reported by the inner writer` and return that amount, passing the caller's buffer unchanged, and no other "
+   "method of their Write / AsyncWrite impl (write_vectored, poll_write_vectored, write_all ...) hands data to the inner writer "
+   "past the counter. (d) The temp file is persisted — with the replacing rename, not persist_noclobber — to "
+   "content_path(cache, builder.result()), close returns that digest, and the only non-declared integrity "
    "ever indexed is Some(publication result). (e) One-shot writers write exactly their data parameter with one write_all and "
-   "declare data.len(). (f) The pre-allocation is reached only when a dominating comparison proves the declared size ≥ 1.",
+   "declare data.len(). (f) The pre-allocation is reached only when a dominating comparison proves the declared size ≥ 1. "
+   "(h) Reads by key resolve the most recent record of the key (the lookup clauses of C05 b, re-checked). (i) The async writer "
+   "never loses its staged file on a path that reports success: after the poll functions take() the inner state out of the shared "
+   "slot, every non-error return is reached only after the state has been re-assigned.",
    "Byte equality for particular inputs, the 1 MiB boundary arithmetic, behaviour of write_all loops inside std, keys with unusual "
    "characters (opaque by C15), the read side (C01).",
    "identity value-flow between digest input and sink + gate-cut reachability + symbolic length/staging checks",
@@ -297,7 +316,8 @@ _m("C16",
    "every caller of those constructors passes opts.algorithm.unwrap_or(Sha256); every *_with_algo function forwards its "
    "algorithm parameter unchanged. (b) The digest is not salted: the may-depend closure of every IntegrityOpts::input argument "
    "contains only the data buffer, the staging buffer / file handle fields and I/O amounts — no key, time, size or metadata "
-   "(content paths depend only on (cache, integrity): C15 b). (c) The address handed back is the computed one: commits return "
+   "(content paths depend only on (cache, integrity): C15 b). (b') What is digested is exactly what was written / read: C02 a and, with "
+   "link_to, C19 b are re-checked. (c) The address handed back is the computed one: commits return "
    "the publication's digest or the insert's result, and the insert returns the integrity it indexed. (d) Each entry is "
    "verified under its own integrity: readers' checkers are built from the requested integrity and whole-buffer reads check "
    "against it (reused C01 R2/R4b). (e) Re-publication over an existing address goes through the same atomic rename, never an "
